@@ -301,6 +301,20 @@ def _status_facts(repo, live_cls):
     return transient, ["crop", "ellipsis", "visible"].index(mode), refreshes, delegates, grid
 
 
+def _hooks_applied(repo):
+    """Console.print and Console.log both pass their renderables through every render hook, in the
+    same way, before rendering (this is what makes `log` a `print` of other lines for C10)"""
+    tree, _ = parse(repo, "rich/console.py")
+    cls = find_class(tree, "Console")
+    want = "for hook in self._render_hooks:\n    renderables = hook.process_renderables(renderables)"
+    res = []
+    for name in ("print", "log"):
+        fn = find_func(cls.body, name)
+        loops = [n for n in ast.walk(fn) if isinstance(n, ast.For) and "_render_hooks" in _src(n.iter)]
+        res.append(len(loops) == 1 and _src(loops[0]) == want)
+    return res
+
+
 def _show_cursor(repo):
     tree, _ = parse(repo, "rich/console.py")
     fn = find_func(find_class(tree, "Console").body, "show_cursor")
@@ -376,6 +390,10 @@ def gen_live_codes(repo):
     out.append(f"Definition status_update_refreshes : bool := {b(refreshes)}.\n")
     out.append(f"Definition status_delegates : bool := {b(delegates)}.\n")
     out.append(f"Definition status_frame_is_grid_row : bool := {b(grid)}.\n")
+    hp, hl = _hooks_applied(repo)
+    out.append("(* Console.print / Console.log run `for hook in self._render_hooks: renderables = hook.process_renderables(...)` *)\n")
+    out.append(f"Definition console_print_applies_hooks : bool := {b(hp)}.\n")
+    out.append(f"Definition console_log_applies_hooks : bool := {b(hl)}.\n")
     out.append("(* live_render.LiveRender (Progress) crops what it renders to the page height *)\n")
     out.append(f"Definition live_render_crops_to_page : bool := {b(_lr_crops(cls))}.\n")
     return "".join(out)
